@@ -145,11 +145,14 @@ theorem error_classes : (∀ e : Err, e.cls = .meshReader ∨ e.cls = .invalidAr
   refine ⟨fun e => by cases e <;> simp [Err.cls], fun e => by cases e <;> simp [Err.cls, Err.site], by decide, by decide, by decide, by decide⟩
 
 /-- every `throw mesh_reader_exception` of the source is the site of exactly one error of the model or
-    one of the seven dead sites; a throw added to or removed from the source breaks this -/
+    one of the seven dead sites; a throw added to or removed from the source breaks this.  The start-up code
+    has 7 `throw intialization_exception`: two on the parameters alone (every cell type has a face type; an
+    epithelial type has two), the three cross checks `initChecks` models (cells vs types, type id range,
+    triangulated input), the cell-class switch and the give-up after `initMaxTries` attempts -/
 theorem throw_sites_partition :
     readerThrows.length = 26
     ∧ (∀ i, i < readerThrows.length → (i ∈ deadSites ∧ ∀ e ∈ allErrs, e.site ≠ some i) ∨ (i ∉ deadSites ∧ (allErrs.filter (fun e => e.site == some i)).length = 1))
-    ∧ initThrows.length = 6 := by
+    ∧ initThrows.length = 7 := by
   refine ⟨by decide, ?_, by decide⟩
   have : ∀ i ∈ List.range readerThrows.length,
       (i ∈ deadSites ∧ ∀ e ∈ allErrs, e.site ≠ some i) ∨ (i ∉ deadSites ∧ (allErrs.filter (fun e => e.site == some i)).length = 1) := by decide
